@@ -11,6 +11,8 @@ CONSTANTS
   SpacedNames = {"Monitor pods in cache tier", "every minute"}
   CommandWords = {"Monitor pods in cache tier"}
   StartupKinds = {}
+  ConvGroups1 = {""}
+  ConvGroups2 = {""}
   MaxDefArr = 2
   WithEmpty = TRUE
   WithConfig = TRUE
